@@ -89,7 +89,7 @@ class CarrierKit:
         K, c = self.K, self.time
         if c is None or c == "ns":
             return K.tarray(vals, unit)
-        if c in ("us", "s", "ms"):
+        if c in ("us", "s", "ms", "m", "h"):
             return K.tarray(vals, c)
         if c in ("epoch_int", "epoch_float", "epoch_list"):
             e = K.epoch_array(vals)
@@ -138,6 +138,8 @@ class Carrier(Pair):
         Pair.__init__(self, base)
         self.data, self.time, self.integer = data, time, integer
         self.name = f"carrier[data={data or 'ndarray'}, time={time or 'datetime64[ns]'}]: {base.name}"
+        if data in ("uint16", "int8"):
+            self.scatter_replay = 4
         if data == "float32" and not isinstance(base, c03.ValidRange):
             # (valid_range_test compares in the data's own dtype by contract - its `dtype` parameter and "span of equal format" -
             #  so a binary64 span that binary32 cannot hold is outside the claim, like a fractional span for integer data)
@@ -187,6 +189,11 @@ class Carrier(Pair):
                 for v in getattr(S, name, []) or []:
                     if isinstance(v, SFloat):
                         V.assume(mk_or(v.nan, z3.IsInt(v.v)))
+        if self.time in ("m", "h"):
+            # a datetime64[m] / [h] array holds whole minutes / hours
+            k = {"m": 60, "h": 3600}[self.time]
+            for t in getattr(S, "t", []) or []:
+                V.assume(t.s % k == 0)
         if self.time in ("us", "ms"):
             # an array of that unit holds exactly the multiples of its resolution
             k = {"us": 10 ** 6, "ms": 10 ** 3}[self.time]
@@ -250,6 +257,11 @@ def jobs(tier):
     for base in (c10.RateOfChange(3, frac=True), c08.Climatology(2, [M(None, True, False)], prop="C15", frac=True)):
         for c in ("us", "ms", "pydt", "ts", "dti", "ser", "ser_utc", "epoch_float"):
             out.append(Carrier(base, time=c))
+    # coarse datetime64 units on an irregular axis with an even number of steps (the median step is then an average of two)
+    for unit in ("m", "h"):
+        k = {"m": 60, "h": 3600}[unit]
+        out.append(Carrier(c12.Attenuated(3, "range", True, "period", steps=(k, 2 * k)), time=unit))
+        out.append(Carrier(c10.RateOfChange(3), time=unit))
     # spans as lists instead of tuples
     out.append(Carrier(c03.GrossRange(n, True, "list"), data="ndarray"))
     if tier == "thorough":
